@@ -16,9 +16,9 @@ CONSTANTS D,         \* history length
 VARIABLE hist
 gvars == <<vars, hist>>
 NoList == <<>>
-OpF(l) == [o |-> "F", h |-> 0, w |-> 0, l |-> l]
-OpA(ep) == [o |-> "A", h |-> ep.h, w |-> ep.w, l |-> NoList]
-OpR(ep) == [o |-> "R", h |-> ep.h, w |-> ep.w, l |-> NoList]
+OpF(l) == [o |-> "F", h |-> 0, w |-> 0, t |-> 0, l |-> l]
+OpA(ep) == [o |-> "A", h |-> ep.h, w |-> ep.w, t |-> ep.t, l |-> NoList]
+OpR(ep) == [o |-> "R", h |-> ep.h, w |-> ep.w, t |-> ep.t, l |-> NoList]
 HostSeq(op) == IF op.o = "F" THEN [i \in 1..Len(op.l) |-> op.l[i].h] ELSE <<op.h>>
 RECURSIVE MaxAfter(_, _)
 \* hosts are introduced in increasing order: returns the new maximum, or -1 if a host is skipped
@@ -41,26 +41,47 @@ G4 == {1, 2, 3, 4}
 GOne == {1}
 GRnd == {"random"}
 GFalse == {FALSE}
-EpsOf(HS, WS) == [h : HS, w : WS]
+GTypes == {0, 1}
+\* S: endpoint with a static weight; L: endpoint of the other weight type ("loop": no static weight)
+S(h, w) == [h |-> h, w |-> w, t |-> 1]
+L(h, w) == [h |-> h, w |-> w, t |-> 0]
+EpsOf(HS, WS) == {S(h, w) : h \in HS, w \in WS}
+LoopsOf(HS, WS) == {L(h, w) : h \in HS, w \in WS}
 \* plain group: weights do not matter
-PlainLists == {<<>>, <<[h |-> 1, w |-> 1]>>, <<[h |-> 1, w |-> 1], [h |-> 2, w |-> 1]>>,
-               <<[h |-> 1, w |-> 1], [h |-> 2, w |-> 1], [h |-> 1, w |-> 1]>>,
-               <<[h |-> 1, w |-> 1], [h |-> 2, w |-> 1], [h |-> 3, w |-> 1]>>,
-               <<[h |-> 1, w |-> 1], [h |-> 1, w |-> 1], [h |-> 2, w |-> 1], [h |-> 3, w |-> 1], [h |-> 4, w |-> 1]>>}
+PlainLists == {<<>>, <<S(1, 1)>>, <<S(1, 1), S(2, 1)>>,
+               <<S(1, 1), S(2, 1), S(1, 1)>>,
+               <<S(1, 1), S(2, 1), S(3, 1)>>,
+               <<S(1, 1), S(1, 1), S(2, 1), S(3, 1), S(4, 1)>>}
 PlainLists3 == {l \in PlainLists : \A i \in 1..Len(l) : l[i].h \in G3}
 \* weighted group for rr/random/modhash: positive weights, zero and a large negative (what the weight
 \* builder must survive); Remove identifies by host, one weight is enough there
 WW == {0 - 200, 0, 1, 3}
-WLists == {<<>>, <<[h |-> 2, w |-> 1], [h |-> 1, w |-> 3]>>, <<[h |-> 1, w |-> 3], [h |-> 1, w |-> 1], [h |-> 3, w |-> 3]>>,
-           <<[h |-> 3, w |-> 0], [h |-> 1, w |-> 0]>>, <<[h |-> 1, w |-> 0 - 200], [h |-> 2, w |-> 3]>>}
+WLists == {<<>>, <<S(2, 1), S(1, 3)>>, <<S(1, 3), S(1, 1), S(3, 3)>>,
+           <<S(3, 0), S(1, 0)>>, <<S(1, 0 - 200), S(2, 3)>>}
 \* weighted group for the consistent hash: weights whose ring sizes differ (w/4 rounds), zero and negative;
 \* Remove is called with the stored weight or another one
 CW == {0 - 1, 0, 4, 40}
-CLists == {<<>>, <<[h |-> 1, w |-> 40], [h |-> 2, w |-> 4]>>, <<[h |-> 2, w |-> 0], [h |-> 1, w |-> 0 - 1]>>,
-           <<[h |-> 1, w |-> 4], [h |-> 1, w |-> 40], [h |-> 3, w |-> 40]>>}
+CLists == {<<>>, <<S(1, 40), S(2, 4)>>, <<S(2, 0), S(1, 0 - 1)>>,
+           <<S(1, 4), S(1, 40), S(3, 40)>>}
 GAddPlain4 == EpsOf(G4, GOne)
 GAddPlain3 == EpsOf(G3, GOne)
 GAddW == EpsOf(G3, WW \ {0 - 200})      \* the large negative weight arrives through Refresh lists only
 GRemW == EpsOf(G3, GOne)
 GAddC == EpsOf(G3, CW)
+\* weighted consistent hash, the small positive weights: w/4 rounds of points is 0 rounds for w in 1..3 (the
+\* endpoint must get one round all the same: it has a positive weight, so it is eligible), 1 round for 4..7,
+\* 2 for 8; together with weight 0 (no points) and endpoints of the other weight type (the ring does not look
+\* at the type).  Remove is called with a small and with a larger weight than the stored one.
+CWL == {0, 1, 2, 3, 5, 8}
+CLLists == {<<>>, <<S(1, 1), S(2, 2)>>, <<S(1, 3)>>, <<S(2, 0), S(1, 1)>>, <<S(1, 8), S(1, 1), S(2, 3)>>,
+            <<S(1, 5), S(2, 3)>>, <<L(2, 2), S(1, 0)>>}
+GAddCL == EpsOf(G3, CWL) \cup LoopsOf(G3, {2})
+GRemCL == EpsOf(G3, {1}) \cup EpsOf({1}, {8})
+GRemCLFree == EpsOf(G3, {1, 8})
+\* mixed weight types under the weighted mode: lists and Adds bring in endpoints that carry no static weight
+\* (weight 0 as the registry gives them, or a stale positive number); while such an endpoint is a member no
+\* static weights apply, and they apply again once it has been removed
+TW == {0, 1, 3}
+TLists == {<<>>, <<S(2, 1), L(1, 0)>>, <<L(1, 3), S(1, 1), S(3, 3)>>, <<S(1, 3), S(2, 1)>>, <<L(3, 0), L(1, 0)>>}
+GAddT == EpsOf(G3, {1, 3}) \cup LoopsOf(G3, {0, 3})
 ====
